@@ -128,6 +128,20 @@ def done_machine(rng):
             e_n = "N%d" % ri
             events.append(e_n)
             nodes[a].on.append((e_n, [Trans(next(tid), a, e_n, nested)]))
+        elif rng.random() < 0.25:
+            # a nested parallel state inside the region: only one of its sub-regions can complete
+            q = add(r, "q", "parallel")
+            for sk in ("s", "sx"):
+                sr = add(q, sk, "compound")
+                sa = add(sr, "a", "atomic")
+                sf = add(sr, "f", "final")
+                nodes[sr].initial = sa
+                e_s = "S%d%s" % (ri, sk)
+                events.append(e_s)
+                nodes[sa].on.append((e_s, [Trans(next(tid), sa, e_s, sf)]))
+            e_q = "Q%d" % ri
+            events.append(e_q)
+            nodes[a].on.append((e_q, [Trans(next(tid), a, e_q, q)]))
     fin = add(0, "fin", "final")
     idle = add(0, "idle", "atomic")
     nodes[0].initial = w
@@ -162,6 +176,10 @@ def family(rng, n):
             if rng.random() < 0.6 and fins:
                 k = rng.randrange(len(seq))
                 seq = seq[:k + 1] + ["B" + seq[k][1:], seq[k]] + seq[k + 1:]
+            extra = [e for e in events if e[0] in "QS"]
+            if extra and rng.random() < 0.7:
+                k = rng.randrange(len(seq) + 1)
+                seq = seq[:k] + rng.sample(extra, min(2, len(extra))) + seq[k:]
             seq += rng.sample(events, 2) + ["X"]
             runs.append(({}, [(e, "plain", j + 1) for j, e in enumerate(seq)]))
         cases.append((am, ("sync", "async")[i % 2], runs, dict(probe_can=(i % 3 == 0))))
